@@ -179,3 +179,67 @@ def encodeProg (h : Params) : List Instr → Bytes
   | i :: is => encodeInstr h i ++ encodeProg h is
 
 end Gimli.Spec.Line
+
+namespace Gimli.Spec.Line
+open Gimli Gimli.Line
+
+/-- the Model row that carries the Spec registers (a row the implementation returns is never a
+tombstone; the line register is a `u64`) -/
+def toRow (r : Regs) : Row :=
+  { tombstone := false, address := r.address, opIndex := r.opIndex, file := r.file,
+    line := r.line.toNat, column := r.column, isStmt := r.isStmt, basicBlock := r.basicBlock,
+    endSequence := r.endSequence, prologueEnd := r.prologueEnd, epilogueBegin := r.epilogueBegin,
+    isa := r.isa, discriminator := r.discriminator }
+
+/-! ## the "any input" clause: addresses inside a sequence -/
+
+/-- **Monotone trace.** `lo` is the address of the last row of the current sequence (0 at its
+start). Every *returned* row has an address `≥ lo` and `≤` the all-ones value of the address
+size; a row with `end_sequence` — returned or swallowed as a tombstone (`hidden`) — starts a new
+sequence. Errors do not interrupt a sequence. -/
+def MonoTrace (size : Nat) : Nat → List Ev → Prop
+  | _, [] => True
+  | lo, .row r :: evs =>
+    lo ≤ r.address ∧ r.address ≤ onesSized size ∧
+      MonoTrace size (if r.endSequence then 0 else r.address) evs
+  | lo, .hidden r :: evs => MonoTrace size (if r.endSequence then 0 else lo) evs
+  | lo, .err _ :: evs => MonoTrace size lo evs
+  | lo, .stuck :: evs => MonoTrace size lo evs
+
+/-- **Monotone as the caller sees it**: the same, but only returned rows can end a sequence
+(the caller cannot see a swallowed `end_sequence`). -/
+def MonoObserved (size : Nat) : Nat → List Ev → Prop
+  | _, [] => True
+  | lo, .row r :: evs =>
+    lo ≤ r.address ∧ r.address ≤ onesSized size ∧
+      MonoObserved size (if r.endSequence then 0 else r.address) evs
+  | lo, _ :: evs => MonoObserved size lo evs
+
+/-- executable form of `MonoObserved` (for `decide`d examples) -/
+def monoObservedB (size : Nat) : Nat → List Ev → Bool
+  | _, [] => true
+  | lo, .row r :: evs =>
+    decide (lo ≤ r.address) && decide (r.address ≤ onesSized size) &&
+      monoObservedB size (if r.endSequence then 0 else r.address) evs
+  | lo, .hidden _ :: evs => monoObservedB size lo evs
+  | lo, .err _ :: evs => monoObservedB size lo evs
+  | lo, .stuck :: evs => monoObservedB size lo evs
+
+theorem monoObservedB_iff (size : Nat) (evs : List Ev) : ∀ lo,
+    monoObservedB size lo evs = true ↔ MonoObserved size lo evs := by
+  induction evs with
+  | nil => intro lo; simp [monoObservedB, MonoObserved]
+  | cons e evs ih =>
+    intro lo
+    cases e <;> simp [monoObservedB, MonoObserved, ih, and_assoc]
+
+instance (size lo : Nat) (evs : List Ev) : Decidable (MonoObserved size lo evs) :=
+  decidable_of_iff _ (monoObservedB_iff size evs lo)
+
+/-- no `end_sequence` row was swallowed as a tombstone -/
+def NoHiddenEnd : List Ev → Prop
+  | [] => True
+  | .hidden r :: evs => r.endSequence = false ∧ NoHiddenEnd evs
+  | _ :: evs => NoHiddenEnd evs
+
+end Gimli.Spec.Line
